@@ -13,6 +13,8 @@ namespace Obligations
 theorem time_extraction_complete : Extracted.timeFailures = [] := by decide
 
 theorem time_modifiers : Extracted.modifierTable = Time.modifierTable := by decide
+/-- the split is made at the lowest position among the per-modifier hits (`Time.splitOnceCpp`, `Time.splitOnceCpp_eq`) -/
+theorem time_split_lowest : Extracted.splitAtLowestIndex = true := by decide
 theorem time_patch_table : Extracted.patchTable = Time.patchTable := by decide
 theorem time_patch_args : Extracted.patchArgs = Time.patchArgs := by decide
 theorem time_rewrites : Extracted.rewriteTable = Time.rewriteTable := by decide
